@@ -215,6 +215,13 @@ def pushOrdered (dist : Nat → Int) (l : List Nat) (v : Nat) : List Nat :=
   | none => [v]
   | some back => if dist back < dist v then l ++ [v] else insertWalk dist v l
 
+/-- A successful relaxation of the arc `cur → v` of cost `w`: new label and predecessor for `v`;
+if `v` is the destination, `best` is updated and `v` is *not* pushed, otherwise `v` is pushed. -/
+def relaxOne (dest cur v : Nat) (w : Int) (s : LibSt) : LibSt :=
+  let s1 := { s with dist := upd s.dist v (s.dist cur + w), pred := upd s.pred v (some cur) }
+  if v = dest then { s1 with best := s.dist cur + w, visitedDest := true }
+  else { s1 with visiting := pushOrdered s1.dist s1.visiting v }
+
 /-- The `for v, dist := range current.arcs` loop of `postSetupEvaluate`. `.error` is the
 `newErrLoop` return. -/
 def relaxArcs (dest cur : Nat) : List (Nat × Int) → LibSt → Except (Nat × Nat) LibSt
@@ -222,12 +229,7 @@ def relaxArcs (dest cur : Nat) : List (Nat × Int) → LibSt → Except (Nat × 
   | (v, w) :: rest, s =>
     if s.dist cur + w < s.dist v then
       if s.pred cur = some v ∧ v ≠ dest then .error (cur, v)
-      else
-        let s1 := { s with dist := upd s.dist v (s.dist cur + w), pred := upd s.pred v (some cur) }
-        if v = dest then
-          relaxArcs dest cur rest { s1 with best := s.dist cur + w, visitedDest := true }
-        else
-          relaxArcs dest cur rest { s1 with visiting := pushOrdered s1.dist s1.visiting v }
+      else relaxArcs dest cur rest (relaxOne dest cur v w s)
     else relaxArcs dest cur rest s
 
 /-- The `for g.visiting.Len() > 0` loop. `none` = the fuel ran out (never observed; the driver
@@ -478,12 +480,13 @@ def broadcastHistory (sent : List Nat) : List (List Nat) → List Nat
 
 /-! ### Spec for link-state reception (independent of `notifyData`) -/
 
+/-- The largest timestamp of a list of updates (0 for none). -/
+def maxTs (l : List PeerData) : Nat := l.foldl (fun m d => max m d.timestamp) 0
+
 /-- Among the updates for node `id` (in arrival order) the one that must be stored at the end:
 the earliest one carrying the maximal timestamp ("replaced only by NEWER data"). -/
 def expectedStored (ups : List PeerData) (id : Nat) : Option PeerData :=
   let mine := ups.filter (·.id == id)
-  match mine.map (·.timestamp) |>.max? with
-  | none => none
-  | some m => mine.find? (·.timestamp == m)
+  mine.find? (·.timestamp == maxTs mine)
 
 end Dtn7.Dtlsr
